@@ -5286,15 +5286,19 @@ func (a *Agent) TaskDispatch(RequestID uint32, CommandID uint32, Parser *parser.
 										// if the agent doesn't exist then we assume that it's a register request from a new agent
 
 										DemonInfo = ParseDemonRegisterRequest(AgentHdr.AgentID, AgentHdr.Data, "")
-										DemonInfo.Pivots.Parent = a
 
-										a.Pivots.Links = append(a.Pivots.Links, DemonInfo)
-										teamserver.LinkAdd(a, DemonInfo)
+										// nil if the registration data could not be parsed (reported below)
+										if DemonInfo != nil {
+											DemonInfo.Pivots.Parent = a
 
-										DemonInfo.Info.MagicValue = AgentHdr.MagicValue
+											a.Pivots.Links = append(a.Pivots.Links, DemonInfo)
+											teamserver.LinkAdd(a, DemonInfo)
 
-										teamserver.AgentAdd(DemonInfo)
-										teamserver.AgentSendNotify(DemonInfo)
+											DemonInfo.Info.MagicValue = AgentHdr.MagicValue
+
+											teamserver.AgentAdd(DemonInfo)
+											teamserver.AgentSendNotify(DemonInfo)
+										}
 									}
 
 									if DemonInfo != nil {
